@@ -129,6 +129,49 @@ def random_cases(tier, rng, kinds, count, faults=False, cons_kinds=("exhaust", "
         yield case
 
 
+ODD_VALUES = [["n"], ["fill"], ["i", 0], ["b", False], ["t"]]
+# tools that neither order nor add their items: any object may flow through them
+ODD_TOOLS = ["filter", "filterfalse", "enumerate", "takewhile", "dropwhile", "batched", "chain", "compress", "cycle",
+             "islice", "pairwise", "zip", "map", "zip_longest", "all", "any", "list", "tuple"]
+
+
+def odd_value_cases(tier, rng, kinds, count, tools_subset=None):
+    """items that library-internal sentinels are often confused with (None, a fillvalue-like object, falsy numbers,
+    the empty tuple) at every position of short streams, then at random positions of random streams"""
+    grid = tool_grid(tier)
+    names = [t for t in ODD_TOOLS if not tools_subset or t in tools_subset]
+    n = 0
+    for tool in names:
+        nsrc, plist, fns, style = grid[tool]
+        if style not in ("obj", "sel"):
+            continue
+        ns = nsrc or 2
+        shapes = [s for s in itertools.product(range(0, 3), repeat=ns)]
+        for params in plist[: (4 if tier == "quick" else 12)]:
+            for shape in shapes:
+                keyseqs = [[1] * ln for ln in shape]
+                cons = cons_exhaust(tool, sum(shape))[0]
+                for si in range(ns):
+                    for pos in range(shape[si]):
+                        for odd in ODD_VALUES[: (2 if tier == "quick" else 5)]:
+                            n += 1
+                            case = build_case(tool, params, fns, style, keyseqs, _rot(kinds, n, ns), cons,
+                                              _rot(FLAV, n, len(fns)))
+                            case["srcs"][si]["script"][pos] = odd
+                            case["family"] = "odd"
+                            yield case
+    for case in random_cases(tier, rng, kinds, count, cons_kinds=("exhaust",), tools_subset=names):
+        nsrc, plist, fns, style = grid[case["tool"]]
+        if style not in ("obj", "sel"):
+            continue
+        for src in case["srcs"]:
+            for pos in range(len(src["script"])):
+                if rng.random() < 0.3:
+                    src["script"][pos] = rng.choice(ODD_VALUES)
+        case["family"] = "odd"
+        yield case
+
+
 # ---------------------------------------------------------------------------------------------
 # judges
 
